@@ -36,6 +36,22 @@ func resultOf(x string) string {
 	return fmt.Sprintf("S%v:%s|X%v", b, f, lib.IsXSS(x))
 }
 
+// rawResult keeps the fingerprint string exactly as returned (no copy), so that a
+// result which is later overwritten through shared memory is noticed when it is
+// formatted after further calls.
+type rawResult struct {
+	b  bool
+	f  string
+	xs bool
+}
+
+func rawOf(x string) rawResult {
+	b, f := lib.IsSQLi(x)
+	return rawResult{b, f, lib.IsXSS(x)}
+}
+
+func (r rawResult) String() string { return fmt.Sprintf("S%v:%s|X%v", r.b, r.f, r.xs) }
+
 type childJob struct {
 	Inputs []string `json:"inputs"` // hex
 	G      int      `json:"goroutines,omitempty"`
@@ -59,8 +75,13 @@ func readJob() (childJob, []string) {
 func oracleChild() {
 	_, in := readJob()
 	w := bufio.NewWriter(os.Stdout)
-	for _, x := range in {
-		fmt.Fprintf(w, "R %s\n", hex.EncodeToString([]byte(resultOf(x))))
+	raws := make([]rawResult, len(in))
+	for i, x := range in {
+		raws[i] = rawOf(x)
+	}
+	// results are formatted only after the whole history ran: a returned string must still say the same
+	for _, r := range raws {
+		fmt.Fprintf(w, "R %s\n", hex.EncodeToString([]byte(r.String())))
 	}
 	w.Flush()
 	os.Exit(0)
@@ -204,6 +225,7 @@ func c05Oracle(c ev.Case) Res {
 	switch c.Kind {
 	case "history":
 		// in-process sequential history: every observation equals the fresh-process result
+		raws := make([]rawResult, len(seq))
 		for i, x := range seq {
 			want, e := freshOf(x)
 			if e != "" {
@@ -212,8 +234,15 @@ func c05Oracle(c ev.Case) Res {
 				}
 				return fail("fresh-process oracle failed on %q: %s", x, e)
 			}
-			if got := resultOf(x); got != want {
+			raws[i] = rawOf(x)
+			if got := raws[i].String(); got != want {
 				return fail("step %d of the history: result of %q is %s, in a fresh process it is %s", i, x, got, want)
+			}
+		}
+		for i, x := range seq {
+			want, _ := freshOf(x)
+			if got := raws[i].String(); got != want {
+				return fail("the result returned at step %d for %q read %s when returned but reads %s after the later calls of the history", i, x, want, got)
 			}
 		}
 		rep := false
